@@ -23,6 +23,7 @@ void* RBI_DEREF(void* it_) { RBI* it = (RBI*)it_; __CPROVER_assert(it->f0 != 0, 
 void* RBI_INC(void* it_) { RBI* it = (RBI*)it_; it->f0 = MAYBE; __CPROVER_assume(it->f0 != 0 || !(has_w && cur_q && cur_a) || seen_t); return it; }
 void TI_CTOR(void* ti, void* tup, uint64_t* sym, uint64_t* st) { __CPROVER_assert(*sym == cell_clu.f0 && *st == g_cq && tup == (void*)&cell_tup, "C03: a TransitionInfo is built from the tuple, symbol and parent of the rule under the cursor");
   if (ti == (void*)&cell_tiw) __CPROVER_assert(SP_PTR((SPV*)tup) == TOKT_W && *sym == wa && *st == wq, "the witness rule's info holds the witness rule"); }
+uint64_t VEC_SIZE(void* v) { return nondet_u64(); }     /* size() of a tuple, should the code ask for it */
 void TIP_RAW(void* sp, void* raw) { SP_PTR((TIP*)sp) = raw; }
 _Bool VEC_EMPTY(void* v) { if (v == TOKT_W) { if (w_leaf) __CPROVER_assume(T_PROD[wq] != 0); return w_leaf; }
   if (v == TOKT_O) { _Bool e = nondet_bool(); if (e) __CPROVER_assume(T_PROD[g_cq] != 0); /* a rule without children makes its parent productive (definition) */ return e; }
